@@ -65,6 +65,9 @@ impl Api for SD {
     fn parent_variants(_p: &[u8]) -> Val {
         Val::L(vec![])
     }
+    fn cons(_a: &[u8], _b: &[u8]) -> (Vec<Val>, Val) {
+        (vec![], Val::L(vec![]))
+    }
     fn ancestors(p: &[u8]) -> Val {
         list(sp(p).ancestors(), |a| b(pbytes(a)))
     }
